@@ -238,12 +238,12 @@ pub(crate) fn add_generic_dyn_display<W: Write, R, T>(
                               _tca,
                               rt: RTCell<W, R, T>| {
                             rt.limits.check_permission(&builtin_permissions::PRINT)?;
-                            let a0 = eval(&args[0], ns, &rt)?;
+                            let a0 = xraise!(eval(&args[0], ns, &rt)?);
                             let a1 =
                                 xraise_opt!(args.get(1).map(|e| eval(e, ns, &rt)).transpose()?);
                             let func = to_primitive!(inner_value, Function);
                             let string = xraise!(ns
-                                .eval_func_with_values(func, vec![a0.clone()], rt.clone(), false)?
+                                .eval_func_with_values(func, vec![Ok(a0.clone())], rt.clone(), false)?
                                 .unwrap_value());
                             let str_slice = to_primitive!(string, String);
                             if let Some(a1) = a1 {
